@@ -50,10 +50,54 @@ theorem clsT_ok : ClsOK clsT :=
     subst h
     cases hd)
 
-/-- F18: the chain `o0.x → o1.x → o2.x` wired top-down.  Corpus case `same-D … sw 0 1;sw 1 2;st 2 x 5`. -/
+/-- F18 (fixed by bead785): the chain `o0.x → o1.x → o2.x` wired top-down; regression witness.
+Corpus case `same-D … sw 0 1;sw 1 2;st 2 x 5`. -/
 def topDown : List Op := [.swap 0 (some 1), .swap 1 (some 2)]
 
 /-- The same chain wired bottom-up: no hook fails. -/
 def bottomUp : List Op := [.swap 1 (some 2), .swap 0 (some 1)]
+
+/-- F19, notification side: `'*'` chain A(`a_`).x → B(`b_`).a_x → C → D where the write walk ends on
+`c.a_a_x` while reads and listeners go on through `c.b_a_x → d.b_a_x`.  Corpus case
+`star2-deep … sw 2 3;sw 1 2;sw 0 1;st 0 x 5;sw 2 N;dl 0 x;rd 0 x`: the `del` deletes, its read-back raises,
+and the link is left without forwarder. -/
+def nax : Name := ['a', '_', 'x']
+def naax : Name := ['a', '_', 'a', '_', 'x']
+def nbax : Name := ['b', '_', 'a', '_', 'x']
+def clsA : Cls := ⟨some ['a', '_'], [(nx, .defer (mkDelegate ['*'] false))]⟩
+def clsB : Cls := ⟨some ['b', '_'], [(nax, .defer (mkDelegate ['*'] false))]⟩
+def clsC : Cls := ⟨none, [(naax, .plain 0 1), (nbax, .defer (mkDelegate [] false))]⟩
+def clsE : Cls := ⟨none, [(nbax, .plain 1 2)]⟩
+
+def deepClasses : List Cls := [clsA, clsB, clsC, clsE]
+
+def brokenDel : List Op :=
+  [.swap 2 (some 3), .swap 1 (some 2), .swap 0 (some 1), .set 0 nx 5, .swap 2 none, .del 0 nx]
+
+theorem deepClasses_ok : ∀ c ∈ deepClasses, ClsOK c := by
+  intro c hc
+  simp only [deepClasses, List.mem_cons, List.not_mem_nil, or_false] at hc
+  rcases hc with rfl | rfl | rfl | rfl
+  · refine clsOK_of_forall (by unfold ClsWF; decide) ?_
+    intro ntd h d hd
+    simp only [clsA, List.mem_singleton] at h
+    subst h; cases hd
+    exact ⟨⟨by decide, by decide⟩, ['*'], false, rfl⟩
+  · refine clsOK_of_forall (by unfold ClsWF; decide) ?_
+    intro ntd h d hd
+    simp only [clsB, List.mem_singleton] at h
+    subst h; cases hd
+    exact ⟨⟨by decide, by decide⟩, ['*'], false, rfl⟩
+  · refine clsOK_of_forall (by unfold ClsWF; decide) ?_
+    intro ntd h d hd
+    simp only [clsC, List.mem_cons, List.not_mem_nil, or_false] at h
+    rcases h with rfl | rfl
+    · cases hd
+    · cases hd
+      exact ⟨⟨by decide, by decide⟩, [], false, rfl⟩
+  · refine clsOK_of_forall (by unfold ClsWF; decide) ?_
+    intro ntd h d hd
+    simp only [clsE, List.mem_singleton] at h
+    subst h; cases hd
 
 end TraitsVerif.Model.Deleg.Witness
